@@ -398,6 +398,75 @@ pub fn check_c16(ctx: &Ctx, known: &KnownFindings) -> Report {
     let mut rep = Report::new("C16");
     let ks = known_sigs(known, "C16");
     let maxlen = if ctx.tier == Tier::Thorough { 8 } else { 6 };
+    // counter wrap: a thread fails and reads, exactly N failures happen on another thread, the first
+    // thread fails again (another kind) and reads: N around 2^8 and 2^16 (a serial number or slot index
+    // kept in a narrow integer comes round to the same value)
+    {
+        let mut gaps: Vec<usize> = vec![254, 255, 256, 257, 65534, 65535, 65536, 65537];
+        if ctx.tier == Tier::Thorough {
+            gaps.extend([65530, 65531, 65532, 65533, 65538, 131070, 131071, 131072, 131073]);
+        }
+        let r = catch(|| -> PResult {
+            for &n in &gaps {
+                let mut arena = Arena::new(2);
+                let mut sched: Vec<(usize, usize)> = vec![(0, 0), (0, FAIL_KINDS)];
+                sched.extend(std::iter::repeat((1usize, 1usize)).take(n));
+                sched.extend([(0, 4), (0, FAIL_KINDS), (1, FAIL_KINDS)]);
+                arena.run(&sched).map_err(|f| Failure::new(f.sig, format!("after exactly {} failures on the other thread: {}", n, f.detail.chars().take(600).collect::<String>())))?;
+            }
+            Ok(())
+        });
+        rep.stats.class("foreign-failures-between:2^8,2^16");
+        rep.stats.evals += gaps.len() as u64;
+        rep.direct("counter wrap", r, &ks);
+    }
+    // many live threads: 70 threads fail once, then each fails again in turn while all others re-read
+    {
+        let n = 70;
+        let r = catch(|| -> PResult {
+            let mut arena = Arena::new(n);
+            let mut sched: Vec<(usize, usize)> = (0..n).map(|t| (t, 0)).collect();
+            for t in 0..n {
+                sched.push((t, 2));
+                for u in 0..n {
+                    sched.push((u, FAIL_KINDS));
+                }
+            }
+            arena.run(&sched).map(|_| ())
+        });
+        rep.stats.class("many-live-threads:70");
+        rep.direct("70 live threads", r, &ks);
+    }
+    // 300 short-lived threads each fail once while one early thread keeps (and re-reads) its description
+    {
+        let r = catch(|| -> PResult {
+            let mut keeper = Arena::new(1);
+            keeper.run(&[(0, 4), (0, FAIL_KINDS)])?;
+            for batch in 0..10 {
+                let mut a = Arena::new(30);
+                // every thread of the batch fails once (its first failure comes after earlier threads have
+                // exited), then every thread reads, then they fail and read in the opposite order
+                let mut sched: Vec<(usize, usize)> = (0..30).map(|t| (t, (t + batch) % 4)).collect();
+                sched.extend((0..30).map(|t| (t, FAIL_KINDS)));
+                sched.extend((0..30).rev().map(|t| (t, (t + batch + 1) % 4)));
+                sched.extend((0..30).map(|t| (t, FAIL_KINDS)));
+                a.run(&sched)?;
+                drop(a);
+                keeper.run(&[(0, FAIL_KINDS)])?;
+            }
+            keeper.run(&[(0, FAIL_KINDS)]).map(|_| ())
+        });
+        rep.stats.class("short-lived-threads:300");
+        rep.direct("300 short-lived failing threads", r, &ks);
+    }
+    // the stages above run one schedule at a time; the ones below run several arenas concurrently, where a
+    // library that shares state between threads may kill the process (a panic inside extern "C" aborts):
+    // what was found so far is reported first
+    if rep.founds.iter().any(|f| !f.failure.sig.starts_with("HARNESS:")) {
+        rep.stats.class("stopped-after-sequential-stages");
+        finish_c16_texts(&mut rep);
+        return rep;
+    }
     // exhaustive: 2 threads x {fail kind 0, fail kind 2, read}; all schedules up to maxlen
     // ... and the same with the two longest descriptions (kinds 3, 7) and two payload-free error kinds (8, 9), one step shorter
     let groups = ctx.threads.max(1).min(8);
@@ -459,69 +528,17 @@ pub fn check_c16(ctx: &Ctx, known: &KnownFindings) -> Report {
     rep.exhaustive = Some(true);
     rep.extra.insert("exhaustive_subspace".into(), json!(format!("all schedules of length 1..{} over 2 threads x {{fail(name conversion), fail(record text), read}}, and of length 1..{} over 2 threads x {{fail(second question), fail(rename to root), read}} and x {{fail(packet too large), fail(void record), read}} = {} schedules, executed in lock-step", maxlen, maxlen - 1, n)));
     rep.stats.sample("exhaustive", json!({"schedule": "[(0,fail0),(1,fail2),(0,read)]", "expected": "thread 0 reads the name-conversion failure"}));
-    // counter wrap: a thread fails and reads, exactly N failures happen on another thread, the first
-    // thread fails again (another kind) and reads: N around 2^8 and 2^16 (a serial number or slot index
-    // kept in a narrow integer comes round to the same value)
-    {
-        let mut gaps: Vec<usize> = vec![254, 255, 256, 257, 65534, 65535, 65536, 65537];
-        if ctx.tier == Tier::Thorough {
-            gaps.extend([65530, 65531, 65532, 65533, 65538, 131070, 131071, 131072, 131073]);
-        }
-        let r = catch(|| -> PResult {
-            for &n in &gaps {
-                let mut arena = Arena::new(2);
-                let mut sched: Vec<(usize, usize)> = vec![(0, 0), (0, FAIL_KINDS)];
-                sched.extend(std::iter::repeat((1usize, 1usize)).take(n));
-                sched.extend([(0, 4), (0, FAIL_KINDS), (1, FAIL_KINDS)]);
-                arena.run(&sched).map_err(|f| Failure::new(f.sig, format!("after exactly {} failures on the other thread: {}", n, f.detail.chars().take(600).collect::<String>())))?;
-            }
-            Ok(())
-        });
-        rep.stats.class("foreign-failures-between:2^8,2^16");
-        rep.stats.evals += gaps.len() as u64;
-        rep.direct("counter wrap", r, &ks);
-    }
-    // many live threads: 70 threads fail once, then each fails again in turn while all others re-read
-    {
-        let n = 70;
-        let r = catch(|| -> PResult {
-            let mut arena = Arena::new(n);
-            let mut sched: Vec<(usize, usize)> = (0..n).map(|t| (t, 0)).collect();
-            for t in 0..n {
-                sched.push((t, 2));
-                for u in 0..n {
-                    sched.push((u, FAIL_KINDS));
-                }
-            }
-            arena.run(&sched).map(|_| ())
-        });
-        rep.stats.class("many-live-threads:70");
-        rep.direct("70 live threads", r, &ks);
-    }
-    // 300 short-lived threads each fail once while one early thread keeps (and re-reads) its description
-    {
-        let r = catch(|| -> PResult {
-            let mut keeper = Arena::new(1);
-            keeper.run(&[(0, 4), (0, FAIL_KINDS)])?;
-            for batch in 0..10 {
-                let mut a = Arena::new(30);
-                let sched: Vec<(usize, usize)> = (0..30).map(|t| (t, (t + batch) % 4)).collect();
-                a.run(&sched)?;
-                drop(a);
-                keeper.run(&[(0, FAIL_KINDS)])?;
-            }
-            keeper.run(&[(0, FAIL_KINDS)]).map(|_| ())
-        });
-        rep.stats.class("short-lived-threads:300");
-        rep.direct("300 short-lived failing threads", r, &ks);
-    }
     let prop = (200usize, c16_case);
     let r = drive(&prop, ctx.cases(20_000, 400_000), ctx, 16, &ks);
     rep.absorb(r);
-    rep.rule = "schedules = sequences of (thread, fail_k | read) executed exactly: each schedule thread is an OS thread that performs one table call per command received over a channel and replies before the next command is issued (the harness owns the interleaving). fail_k are thirteen failing table calls (raw_name_from_str x4, add_to_answer with unparsable text / text that is not UTF-8 / at the 8192-byte limit, add_to_question, rename_with_raw_names with an empty / a root target, and inside an iter_answer callback a second delete and set_raw_name with a malformed / a compressed name) covering payload-free error kinds (Parse error, Packet too large, Void record), payload-carrying ones and the two descriptions longer than 64 bytes; read = error_description(err) with that thread's err pointer. Oracle: model of per-thread last failure (descriptions taken from the native API); every read returns it. Exhaustive for 2 threads x 2 failure kinds x read up to the stated length, for three pairs of kinds (short payload-carrying, the two longest descriptions, two payload-free kinds); random for 3-4 threads, length <= 40, packet-level failures on the thread's own packet or on one of two packets handed between the threads; one deterministic schedule with 70 live threads; one with 300 short-lived failing threads while an early thread keeps re-reading its description; schedules with exactly 254..257 and 65534..65537 failures on another thread between a thread's read and its next failure. Non-trivial: a read whose thread's last failure precedes a failure on another thread.".into();
+    finish_c16_texts(&mut rep);
+    rep
+}
+
+fn finish_c16_texts(rep: &mut Report) {
+    rep.rule = "schedules = sequences of (thread, fail_k | read) executed exactly: each schedule thread is an OS thread that performs one table call per command received over a channel and replies before the next command is issued (the harness owns the interleaving). fail_k are thirteen failing table calls (raw_name_from_str x4, add_to_answer with unparsable text / text that is not UTF-8 / at the 8192-byte limit, add_to_question, rename_with_raw_names with an empty / a root target, and inside an iter_answer callback a second delete and set_raw_name with a malformed / a compressed name) covering payload-free error kinds (Parse error, Packet too large, Void record), payload-carrying ones and the two descriptions longer than 64 bytes; read = error_description(err) with that thread's err pointer. Oracle: model of per-thread last failure (descriptions taken from the native API); every read returns it. Exhaustive for 2 threads x 2 failure kinds x read up to the stated length, for three pairs of kinds (short payload-carrying, the two longest descriptions, two payload-free kinds); random for 3-4 threads, length <= 40, packet-level failures on the thread's own packet or on one of two packets handed between the threads; one deterministic schedule with 70 live threads; one with 300 short-lived threads in batches of 30 (each batch: all fail, all read, all fail again in the opposite order, all read) while an early thread keeps re-reading its description; schedules with exactly 254..257 and 65534..65537 failures on another thread between a thread's read and its next failure. Non-trivial: a read whose thread's last failure precedes a failure on another thread.".into();
     rep.assumptions = vec!["interleavings are explored at the granularity of whole table calls (the property's own granularity); interleavings inside throw_err are not".into(), "a read before the thread's first failure is not judged (err pointer still NULL)".into()];
     rep.require(&["exhaustive-schedules", "threads:3", "threads:4", "read-after-foreign-failure", "many-live-threads:70", "short-lived-threads:300", "foreign-failures-between:2^8,2^16"]);
-    rep
 }
 
 // ---------------------------------------------------------------------------
